@@ -153,3 +153,18 @@ def reachable_nontrivial(net, outputs):
     """True iff some non-input gate is reachable from an output (non-triviality rule)."""
     ni, gs = net
     return any(o > ni for o in outputs)
+
+
+def clone(c, how):
+    """A circuit that went through copy.deepcopy (how % 3 == 1) or a pickle round trip (how % 3 == 2) is a circuit like any
+    other: its gate types, states and markers are EQUAL to the library's module-level objects without being the same
+    objects.  how % 3 == 0: the object as built."""
+    import copy
+    import pickle
+
+    if how % 3 == 1:
+        return copy.deepcopy(c)
+    if how % 3 == 2:
+        return pickle.loads(pickle.dumps(c))
+    return c
+
